@@ -25,7 +25,7 @@ EXPLANATION = (
     'radio = not safelink, base default True; R8 sent and received headers are normalised identically; R9 a driver whose send_packet refuses on a None handle leaves that handle None after close() on every returning path (exception handlers included). Timer-vs-reply timing itself is not decided; the lock + pending test make it irrelevant.')
 ASSUMPTIONS = ['threading.Timer.cancel() prevents a timer that has not fired yet from firing',
                'drivers are the classes deriving from CRTPDriver in cflib/crtp']
-FLOORS = {'R9': 1, 'R8': 1, 'R1': 8, 'R2': 2, 'R3': 6, 'R4': 5, 'R5': 2, 'R6': 7, 'R7': 6}
+FLOORS = {'R9': 1, 'R8': 1, 'R1': 8, 'R2': 2, 'R3': 6, 'R4': 9, 'R5': 2, 'R6': 7, 'R7': 6}
 
 PAT = 'self._answer_patterns'
 
@@ -227,6 +227,15 @@ def check(ctx):
         ctx.inst('R4', f, 'patterns-emptied-after-link-nulled', ok,
                  'the pending patterns must be cancelled AFTER the link is nulled: a request sent by another thread while the link is being closed would otherwise '
                  'arm a timer nobody cancels and be retransmitted in the next session')
+        # ... and BEFORE the application hears about it: a callback may open the next session at once
+        told = gf.find(lambda q: method_call(q, 'call') and norm(q.func.value).startswith('self.') and norm(q.func.value).split('.')[-1] in
+                       ('connection_failed', 'disconnected', 'connection_lost', 'disconnected_link_error'))
+        okb = bool(sites) and all(any(gf.dominates(s_, n) for s_ in sites) for n, _ in told)
+        ctx.inst('R4', f, 'patterns-emptied-before-callbacks', okb and bool(told),
+                 'pending requests are dropped before connection_failed / disconnected / connection_lost are signalled: a callback that re-opens the link must not find '
+                 'retry timers of the old session still armed')
+
+    pattern_table_rules(ctx, 'R4')
 
     # ---- R8: sent and received headers are normalised identically ------------------------------
     header_normalisation_rule(ctx, 'R8')
@@ -283,6 +292,26 @@ def header_normalisation_rule(ctx, rule):
     bu = B_.evaluate(hu[0].value, _S.of(uh), {'self._port': 'p', 'self.channel': 'c', 'self._channel': 'c'}, {'p': 8, 'c': 8})
     ctx.inst(rule, init, 'received-header-normalised', bi[2] == 1 and bi[3] == 1 and bu[2] == 1 and bu[3] == 1,
              'constructor header bits %s vs _update_header bits %s: bits 3..2 must be forced to 1 on both sides' % (B_.describe(bi, 8), B_.describe(bu, 8)))
+
+
+def pattern_table_rules(ctx, rule):
+    """Crazyflie._answer_patterns maps a pending pattern to its running retry timer: every value stored is a Timer created just before
+    (the reply handler and both session-end paths call .cancel() on the values without a test).  Shared with C07: a None in the table
+    makes _check_for_answers raise inside the dispatcher thread, outside the per-callback barrier, and no later packet is delivered."""
+    K = ctx.model.cls(CF, 'Crazyflie')
+    n = 0
+    for f in K.methods.values():
+        g = cfg_of(f)
+        for node in g.nodes:
+            if node.kind != 'stmt' or not isinstance(node.ast, ast.Assign):
+                continue
+            for t in node.ast.targets:
+                if isinstance(t, ast.Subscript) and norm(t.value) == 'self._answer_patterns':
+                    v = g.resolve_local(node, node.ast.value)
+                    ok = isinstance(v, ast.Call) and norm(v.func) in ('Timer', 'threading.Timer')
+                    n += 1
+                    ctx.inst(rule, f, 'pattern-value-is-timer', ok, 'a value stored in the pending-pattern table must be a retry Timer (it is cancelled unconditionally later); stored %s' % norm(node.ast.value), line=node.line)
+    ctx.need(n >= 2, 'stores into Crazyflie._answer_patterns not found')
 
 
 def closed_guard_rule(ctx, k):
